@@ -46,7 +46,10 @@ ASSUMPTIONS = [
     "subspace pairs are judged when both spanning sets have full rank "
     "(sigma_min/sigma_max >= 1e-3) and U+V fills the ambient space with margin "
     ">= 0.02 (generators keep >= 0.1); elementwise intersection needs equal "
-    "composite shapes (docstring)",
+    "composite shapes (docstring); the stacked spanning sets must have their n "
+    "largest singular values in [1e-6, 1e6] (utils.kernel decides ranks with the "
+    "absolute tolerance 1e-8, a documented parameter), generators rescale "
+    "spanning vectors by factors in +-[0.1, 10] and complex units",
     "eigenvector/diagonalize are judged for diagonalisable matrices with pairwise "
     "eigenvalue gaps >= 0.2*max|eigenvalue| and eigenvector condition <= 1e3; a "
     "requested eigenvalue is in-domain when it is an eigenvalue to 1e-9 or at "
